@@ -15,7 +15,8 @@ def profile(family, big=False):
                           exclude=True, reuse=True, multi_input=True,
                           max_blocks=7 if big else 5, kmax=5, min_blocks=2, bn=True)
     return ng.Profile(family='2d', standalone_bn=True, exclude=True, reuse=True,
-                      multi_input=True, max_blocks=7 if big else 5, min_blocks=2)
+                      multi_input=True, max_blocks=7 if big else 5, min_blocks=2, bridge=True,
+                      pads=('causal', 'same', 'none'))
 
 
 @st.composite
